@@ -339,10 +339,15 @@ func twoColumn(raw json.RawMessage, c *ucase) {
 		return &profile.Profile{SampleType: []*profile.ValueType{{Type: "cpu", Unit: spellOut(u1)}, {Type: "wall", Unit: spellOut(u2)}},
 			PeriodType: &profile.ValueType{Type: "cpu", Unit: spellOut(u1)}, Period: 1, Sample: []*profile.Sample{{Value: []int64{v1, v2}}}}
 	}
-	for _, order := range []int{0, 1} {
+	// order: which profile comes first; order >= 2: the column that needs converting is the FIRST one and the last agrees
+	for _, order := range []int{0, 1, 2, 3} {
 		ps := []*profile.Profile{mk(ua, ua, 7, 11), mk(ua, ub, 5, 3)}
 		units := [][]unit{{ua, ua}, {ua, ub}}
-		if order == 1 {
+		if order >= 2 {
+			ps = []*profile.Profile{mk(ua, ua, 7, 11), mk(ub, ua, 5, 3)}
+			units = [][]unit{{ua, ua}, {ub, ua}}
+		}
+		if order%2 == 1 {
 			ps[0], ps[1] = ps[1], ps[0]
 			units[0], units[1] = units[1], units[0]
 		}
